@@ -106,6 +106,8 @@ type c07Table struct {
 	preHeader int
 	// literal[i]: row i (which has no cells) is added as the zero value &tabular.Row{} (nil cell slice, not a separator)
 	literal map[int]bool
+	// repeatOf[i] = j: row i is the very same *Row object as row j, attached to the table a second time
+	repeatOf map[int]int
 }
 
 type hiddenStringer struct{ s string }
@@ -235,6 +237,10 @@ func c07Run(x *X, c *Chooser, t *c07Table, tags []string) {
 			jt.AddRow(&tabular.Row{})
 			continue
 		}
+		if j, again := t.repeatOf[ri]; again {
+			jt.AddRow(jt.AllRows()[j])
+			continue
+		}
 		items := make([]interface{}, len(r))
 		for i := range r {
 			items[i] = r[i].item
@@ -332,18 +338,39 @@ func runC07(x *X) {
 	runC07FromCallback(x)
 	// (a) row-kind words
 	maxw := x.Pick(7, 8)
-	x.Explore("row-words", ExploreOpts{ShardDepth: 2, Bound: fmt.Sprintf("all words over {O object row, S separator, Z zero-cell row, P short row, L the zero value &Row{}} of length <=%d", maxw)}, func(c *Chooser) {
+	x.Explore("row-words", ExploreOpts{ShardDepth: 2, Bound: fmt.Sprintf("all words over {O object row, S separator, Z zero-cell row, P short row, L the zero value &Row{}, R the first object row attached again} of length <=%d", maxw)}, func(c *Chooser) {
 		t := &c07Table{hasHeader: true, header: []string{"k1", "k2"}, skip: map[int]interface{}{}}
 		var w strings.Builder
 		nontrivial := false
 		var tags []string
 		for i := 0; i < maxw; i++ {
-			k := c.Choose(6)
+			k := c.Choose(7)
 			if k == 0 {
 				break
 			}
 			x.Transition(1)
 			switch k {
+			case 6:
+				// the first object row of the table attached once more (the same *Row in two positions)
+				first := -1
+				for j, r := range t.rows {
+					if r != nil && len(r) == 2 && !t.literal[j] {
+						first = j
+						break
+					}
+				}
+				if first < 0 {
+					w.WriteByte('O')
+					t.rows = append(t.rows, []c07Cell{{fmt.Sprintf("v%d", i), "str"}, {i, "int"}})
+					break
+				}
+				w.WriteByte('R')
+				if t.repeatOf == nil {
+					t.repeatOf = map[int]int{}
+				}
+				t.repeatOf[len(t.rows)] = first
+				t.rows = append(t.rows, t.rows[first])
+				nontrivial = true
 			case 5:
 				// the zero value of the exported Row type: no cells (a nil slice), yet not a separator
 				w.WriteByte('L')
